@@ -33,6 +33,13 @@ CHECKS = {
    technique="deterministic simulation with link fault injection: every exchange index x every fault variant enumerated per chip configuration, then seeded multi-fault plans",
    text="For each of 12 chip configurations the fault-free read fixes the exchange count; every exchange index x 45 link fault variants (loss, truncation, garble, oversize, bare status words, replay, swap, SM data-object edits, chip power cycle, dead link) is run as its own simulation (quick: 3 configurations rotating with the seed; thorough: all 12), followed by seeded 2-5 fault plans biased to protocol transitions. "
         "Oracle: the call returns within the step bound, never panics; files read under secure messaging that are returned equal the chip's files; reported successes are steps the chip's own session record shows completed; DataTrusted only with identical files from a trusted issuer."),
+ "C14": dict(engine="store-verify", cat="fault_enumeration", ref="DESIGN.md 6.14",
+   technique="deterministic simulation: live session -> store -> offline verifier, with a byzantine store enumerating a rewrite of every evidence field and file",
+   text="A live simulated session (CA over every curve/suite/key-id arrangement, PACE-CAM, AA RSA/ECDSA) is exported, passed through the simulated store and verified offline with the same trust store: PA, completeness and each mechanism verdict must equal the live ones. "
+        "Then the byzantine store rewrites every evidence field in turn (value-changing mutations, absent/one-byte/oversized variants, other valid points/OIDs/parameter ids, counter +-1) and every hashed file / authenticated SOD region, recomputing all envelope checksums: the corresponding verdict must not be successful; the documented PACE-CAM joint replacement is generated and is the only accepted exception."),
+ "C15": dict(engine="store-corrupt", cat="fault_enumeration", ref="DESIGN.md 6.15",
+   technique="deterministic simulation of bytes at rest: complete enumeration of single-byte substitutions, truncations and extensions per exported blob, plus byzantine envelope rewrites",
+   text="Per exported blob (both Document and DocumentEx forms, seeded file subsets, real and synthetic evidence of each kind) the fault-free round trip must reproduce file set, bytes, parsed JSON view and evidence; then every byte position x {xor 01, xor 80, 00, FF} (all values on the envelope head and tail), every truncation length, extensions, foreign magics and newer versions at each nesting level are applied: the import must be rejected or yield exactly the original content."),
 }
 
 NOT_APPLICABLE = {
@@ -84,6 +91,8 @@ def main():
             {"name": "smduel-cmd", "path": "sim/engines/smduel.go", "serves_properties": ["C10"], "kind_free_text": "deterministic simulation: command histories unwrapped by the reference chip, SSC lockstep invariant"},
             {"name": "e2e", "path": "sim/engines/e2e.go", "serves_properties": ["C08"], "kind_free_text": "deterministic simulation: full read against SimChip + SimPKI world"},
             {"name": "e2e-faults", "path": "sim/engines/e2efaults.go", "serves_properties": ["C11"], "kind_free_text": "deterministic simulation with per-exchange link fault plans over the full read"},
+            {"name": "store-verify", "path": "sim/engines/storeeng.go", "serves_properties": ["C14"], "kind_free_text": "deterministic simulation: capture -> simulated store (byzantine rewrite) -> offline verifier"},
+            {"name": "store-corrupt", "path": "sim/engines/storeeng.go", "serves_properties": ["C15"], "kind_free_text": "deterministic simulation of bytes at rest: bit-rot, torn writes, extension, envelope rewrite"},
             {"name": "readfile", "path": "sim/engines/readfile.go", "serves_properties": ["C13"], "kind_free_text": "deterministic simulation: real ReadFile vs reference chip with response-splitting behaviours"},
         ],
         "checks": checks,
